@@ -270,7 +270,7 @@ def mix(acc, v):
   return (acc * 1000003 + int(v)) % M
 
 
-def toy_algorithm():
+def toy_algorithm(ballast_mib=0):
   """state' = f(state, ordered cohort ids, data, keys): order-sensitive."""
 
   def init(seed):
@@ -280,10 +280,15 @@ def toy_algorithm():
     # 'mom' is None until the first round and 'seen' gains a key per client: the
     # pytree STRUCTURE of the state changes over the rounds (a lazily created
     # momentum, a per-client table)
-    return {'acc': np.array([seed % M, 7], dtype=np.int64),
-            'hist': np.zeros([3], dtype=np.int64), 'rounds': 0,
-            'lr': jnp.asarray(0.5), 'half': jnp.full((2,), 1.0, jnp.float16),
-            'mom': None, 'seen': {}}
+    state = {'acc': np.array([seed % M, 7], dtype=np.int64),
+             'hist': np.zeros([3], dtype=np.int64), 'rounds': 0,
+             'lr': jnp.asarray(0.5), 'half': jnp.full((2,), 1.0, jnp.float16),
+             'mom': None, 'seen': {}}
+    if ballast_mib:
+      # a state of realistic size (a model of a few million parameters): its
+      # pickle is larger than any single buffer a writer might use
+      state['ballast'] = np.full((ballast_mib * 2 ** 20 + 5,), seed % 251, np.uint8)
+    return state
 
   def apply(state, clients):
     i = inj()
@@ -304,6 +309,9 @@ def toy_algorithm():
            'mom': np.array([acc % 97], np.int64) if state['mom'] is None
                   else state['mom'] * 3 % 101,
            'seen': {**state['seen'], **{cid: state['rounds'] for cid, _, _ in clients}}}
+    if 'ballast' in state:
+      new['ballast'] = state['ballast'].copy()
+      new['ballast'][-3:] = [acc % 251, (state['rounds'] + 1) % 251, 7]
     return new, {cid: None for cid, _, _ in clients}
 
   return fedjax.FederatedAlgorithm(init, apply)
@@ -365,7 +373,9 @@ def state_equal(a, b):
           np.array_equal(np.asarray(a['lr']), np.asarray(b['lr'])) and
           (a['mom'] is None) == (b['mom'] is None) and
           (a['mom'] is None or np.array_equal(a['mom'], b['mom'])) and
-          a['seen'] == b['seen'])
+          a['seen'] == b['seen'] and
+          (('ballast' in a) == ('ballast' in b)) and
+          ('ballast' not in a or np.array_equal(a['ballast'], b['ballast'])))
 
 
 def one_run(case, root, injector):
@@ -374,7 +384,7 @@ def one_run(case, root, injector):
   _INJ[0] = injector
   fd = make_fd(case['n_clients'])
   sampler = CountingSampler(fd, case['cohort'], case['seed'])
-  alg = toy_algorithm()
+  alg = toy_algorithm(case.get('ballast_mib', 0))
   # the experiment may be given its directory as a URI (file:///...), as remote
   # file systems are; the harness keeps looking at the plain local path
   root_arg = 'file://' + root if case.get('root_as_uri') else root
@@ -410,7 +420,7 @@ def reference(case, base):
   final_state = one_run(case, root, injector)
   # per-round reference states from checkpoint-free runs of r rounds
   states = {}
-  alg = toy_algorithm()
+  alg = toy_algorithm(case.get('ballast_mib', 0))
   _INJ[0] = Injector()
   fd = make_fd(case['n_clients'])
   s = fedjax.client_samplers.UniformGetClientSampler(fd, case['cohort'], case['seed'])
@@ -566,6 +576,8 @@ def labels(case):
     ls.append('final_eval')
   if case.get('dirname', 'run') != 'run':
     ls.append('dirname_special')
+  if case.get('ballast_mib'):
+    ls.append('state_of_%d_MiB' % case['ballast_mib'])
   return ls
 
 
@@ -591,6 +603,8 @@ def schedule_strategy(draw, tier):
                    seed=draw(st.integers(0, 50)))
   case['dirname'] = draw(st.sampled_from(DIRNAMES))
   case['root_as_uri'] = draw(st.integers(0, 3)) == 0
+  if nr <= 3 and cf >= 1 and draw(st.integers(0, 11)) == 0:
+    case['ballast_mib'] = 17      # every checkpoint is an 17 MiB pickle
   # crash indices are drawn inside the effect stream of an uninterrupted run of
   # this configuration (a resumed run has fewer effects: later crashes of the
   # schedule are biased toward small indices)
